@@ -201,4 +201,31 @@ example (env : Env) (hoff : env.cacheCtxOff = false) (hsub : env.subst = Option.
       = some (.ok false, s') :=
   cache_switch_follows_reference env hoff hsub 0 _ "DEBUG" (.bool false) (by decide) (by decide) (by decide) (by simp [resolveR]) s
 
+
+/-- an Option whose key is present with a value that resolves to itself (a boolean, a number, None, a brace-free
+    string) evaluates to that value, whatever its default -/
+theorem option_present_literal (env : Env) (hsub : env.subst = Option.none) (n : Nat) (o : V) (id : Nat) (key : String)
+    (dflt : Option Expr) (d : V) (h1 : getDotted key o = .found d) (hd : resolveR (n + 2) d o = some (.ok d, [])) (s : St) :
+    ∃ s', ev env (n + 3) .evaluate (.option id key dflt Option.none) o s = some (.ok d, s') := by
+  simp [ev, hsub, nodeOp, optionOp, readKey, bind_run, emit_run, pure_run, h1, wrapEvaluate, handle, resolveM, hd, emitAll]
+
+/-- **cache_switch_documented_spelling_decides.** Whenever `LABREA.CACHE.DISABLED` is present, it alone decides —
+    also when it is falsy and the other spelling `LABREA.CACHE.DISABLE` is truthy (`a or b` would get this wrong). -/
+theorem cache_switch_documented_spelling_decides (env : Env) (hoff : env.cacheCtxOff = false) (hsub : env.subst = Option.none)
+    (n : Nat) (o : V) (d : V) (h1 : getDotted "LABREA.CACHE.DISABLED" o = .found d)
+    (hd : resolveR (n + 2) d o = some (.ok d, [])) (s : St) :
+    ∃ s', cacheDisabled env (ev env (n + 3)) o s = some (.ok d.truthy, s') := by
+  obtain ⟨s', hs'⟩ := option_present_literal env hsub n o (tid 0 1) "LABREA.CACHE.DISABLED"
+    (some (optFalse (tid 0 2) "LABREA.CACHE.DISABLE" (.value (tid 0 3) (.bool false)))) d h1 hd s
+  refine ⟨s', ?_⟩
+  simp only [cacheDisabled, hoff, Bool.false_eq_true, if_false, cacheDisabledOption, optFalse] at *
+  simp [bind_run, hs', pure_run]
+
+/-- `{'LABREA': {'CACHE': {'DISABLED': False, 'DISABLE': True}}}`: caching is NOT disabled -/
+example (env : Env) (hoff : env.cacheCtxOff = false) (hsub : env.subst = Option.none) (s : St) :
+    ∃ s', cacheDisabled env (ev env 3)
+      (.dict [("LABREA", .dict [("CACHE", .dict [("DISABLED", .bool false), ("DISABLE", .bool true)])])]) s
+      = some (.ok false, s') :=
+  cache_switch_documented_spelling_decides env hoff hsub 0 _ (.bool false) (by decide) (by simp [resolveR]) s
+
 end Labrea
